@@ -303,6 +303,10 @@ pub fn deque_worker(a: &WorkerArgs) -> WorkerResult {
     };
     let mut res = WorkerResult::default();
     let result = runner.run(&strategy, |case| {
+        if crate::budget::exhausted() && !acc.borrow().failed {
+            crate::budget::skip();
+            return Ok(());
+        }
         let counting = !acc.borrow().failed;
         if counting {
             let _ = std::fs::write(&inflight, serde_json::to_vec(&case).unwrap());
